@@ -60,6 +60,11 @@ def main():
     names = sorted(p.name for p in (VERIF / "seeded").iterdir() if (p / "meta.json").is_file())
     if "--neutral-only" in sys.argv:
         names = []
+    only_round = next((int(a.split("=")[1]) for a in sys.argv if a.startswith("--round=")), None)
+
+    def in_round(sub, n):
+        return only_round is None or json.loads((VERIF / sub / n / "meta.json").read_text()).get("round") == only_round
+    names = [n for n in names if in_round("seeded", n)]
     base = {pid: findings(pid, REPO) for pid in PIDS}
     with ProcessPoolExecutor(max_workers=14) as ex:
         results = list(ex.map(job, names))
@@ -90,6 +95,7 @@ def main():
     nd = VERIF / "neutral"
     if nd.is_dir():
         nnames = sorted(p.name for p in nd.iterdir() if (p / "meta.json").is_file())
+        nnames = [n for n in nnames if in_round("neutral", n)]
         with ProcessPoolExecutor(max_workers=14) as ex:
             nres = list(ex.map(job_neutral, nnames))
         n_alarm = n_broken = 0
